@@ -199,25 +199,75 @@ def _advances_own_time(fn: ast.FunctionDef) -> bool:
 
 def is_time_slice_routine(fn: ast.FunctionDef) -> bool:
     """
-    Role: writes X.position[d] from an expression containing X.position[d] + X.velocity[d] * (T - X.time_stamp), and
-    updates X.time_stamp (update call or assignment) in the same function.
+    Role: writes X.position[d] from an expression containing X.position[d], X.velocity[d] and X.time_stamp
+    (p + v * (T - t)).  Whether it also updates the stamp is an obligation (R7.2), not part of the role.
     """
-    pos_write = False
     for s, field, recv, elementwise, value in stores(fn):
         if field == "position" and elementwise and value is not None:
             attrs = {n.attr for n in ast.walk(value) if isinstance(n, ast.Attribute)}
             if {"position", "velocity", "time_stamp"} <= attrs:
-                pos_write = True
-    if not pos_write:
-        return False
-    for n in ast.walk(fn):
-        if isinstance(n, ast.Call) and isinstance(n.func, ast.Attribute) and n.func.attr == "update" \
-                and isinstance(n.func.value, ast.Attribute) and n.func.value.attr == "time_stamp":
-            return True
-    for s, field, *_ in stores(fn):
-        if field == "time_stamp":
-            return True
+                return True
     return False
+
+
+def time_slice_obligations(fn: ast.FunctionDef):
+    """Yield (rule, ok, node, message) for the shape of the time-slice routine."""
+    for s, field, recv, elementwise, value in stores(fn):
+        if not (field == "position" and elementwise and value is not None):
+            continue
+        recv_txt = ast.unparse(recv)
+        # p + v * (T - t)
+        core = value
+        wrapped = isinstance(core, ast.Call) and (dotted(core.func) or "").endswith("correct_position_entry")
+        yield ("R7.2-slice-wraps", wrapped, s,
+               "the advanced position must be put back into the box with correct_position_entry")
+        inner = core.args[0] if wrapped and core.args else core
+        ok_form = False
+        if isinstance(inner, ast.BinOp) and isinstance(inner.op, ast.Add):
+            a, b = inner.left, inner.right
+            if isinstance(b, ast.BinOp) and isinstance(b.op, ast.Mult):
+                v, dt = b.left, b.right
+                if not (isinstance(dt, ast.BinOp) and isinstance(dt.op, ast.Sub)):
+                    v, dt = dt, v
+                ok_form = (isinstance(a, ast.Subscript) and ast.unparse(a.value) == f"{recv_txt}.position"
+                           and isinstance(v, ast.Subscript) and ast.unparse(v.value) == f"{recv_txt}.velocity"
+                           and ast.unparse(a.slice) == ast.unparse(v.slice)
+                           and isinstance(dt, ast.BinOp) and isinstance(dt.op, ast.Sub)
+                           and self_attr(dt.left) is not None and ast.unparse(dt.right) == f"{recv_txt}.time_stamp")
+        yield ("R7.2-slice-formula", ok_form, s,
+               "the time-slice must be position[d] + velocity[d] * (event_time - time_stamp) of the same unit and "
+               "the same component")
+        # same block: stamp update; enclosing guard velocity is not None
+        parents = parent_map(fn)
+        cur = s
+        guarded = False
+        loop_parent = None
+        while id(cur) in parents:
+            cur = parents[id(cur)]
+            if isinstance(cur, ast.For) and loop_parent is None:
+                loop_parent = cur
+            if isinstance(cur, ast.If) and "velocity is not None" in ast.unparse(cur.test):
+                guarded = True
+                guard = cur
+        yield ("R7.2-slice-guard", guarded, s, "units at rest (velocity None) must not be advanced")
+        stamp = False
+        scope = guard.body if guarded else fn.body
+        for st in scope:
+            for n in ast.walk(st):
+                if isinstance(n, ast.Call) and isinstance(n.func, ast.Attribute) and n.func.attr == "update" \
+                        and ast.unparse(n.func.value) == f"{recv_txt}.time_stamp" and n.args \
+                        and self_attr(n.args[0]) is not None and not _inside(loop_parent, n):
+                    stamp = True
+                if isinstance(n, ast.Assign) and any(ast.unparse(t) == f"{recv_txt}.time_stamp" for t in n.targets) \
+                        and not _inside(loop_parent, n):
+                    stamp = True
+        yield ("R7.2-slice-updates-stamp", stamp, s,
+               "after advancing the position the unit's time stamp must be set to the event time once (otherwise the "
+               "next slice advances it again over the same interval)")
+
+
+def _inside(container, node) -> bool:
+    return container is not None and any(x is node for x in ast.walk(container))
 
 
 def concrete_handlers(prog: Program) -> List[ClassInfo]:
